@@ -374,6 +374,11 @@ def check_case(c):
             return bad("text", "text did not round-trip: title %r, expected %r (encoding reported %r)" % (title, ex["text"], encn))
         if not same_codec(encn, ex["codec"]):
             return bad("name", "encoding reported as %r, expected %r (or its byte-order-specific name)" % (encn, ex["codec"]))
+        try:
+            if codecs.lookup(ex["codec"]).name == "gb2312" and encn != "gb18030":
+                return bad("gb2312-not-upgraded", "a gb2312 feed is documented to be read as gb18030 whatever the spelling of the label; encoding reported as %r" % (encn,))
+        except LookupError:
+            pass
     else:
         if got_exc != ex["exc"]:
             return bad("exc", "expected bozo_exception %s, got %s (%s)" % (ex["exc"], got_exc, r.get("bozo_exception")))
